@@ -418,6 +418,74 @@ pub fn run(ctx: &Ctx) -> Report {
         }
     });
     rep.merge(trep);
+    // --- discontinuity sweep: along joint lines through a few postures the number of answers of inverse(FK(q)) jumps at
+    // singularities and at the edge of the reachable set; each jump is located by bisection and every entry point is run on
+    // poses a ladder magnitude on either side of it
+    {
+        let probes = [1e-12, 1e-10, 1e-8, 1e-6, 1e-4];
+        let mut jumps = 0u64;
+        let mut case_no = n + sn + tn + 1;
+        for p in srobots.iter() {
+            let robot = OPWKinematics::new(*p);
+            let count = |q: &Joints| {
+                let pose = to_na(&fkref::fk(p, q));
+                std::panic::catch_unwind(std::panic::AssertUnwindSafe(|| rs_opw_kinematics::kinematic_traits::Kinematics::inverse(&robot, &pose).len())).unwrap_or(usize::MAX)
+            };
+            for o in others.iter() {
+                let q0 = user_joints(p, &[o[0], o[1], o[2], o[3], 0.9, o[4]]);
+                for ji in 0..6 {
+                    let steps = 360;
+                    let at = |k: usize| -PI + 2.0 * PI * (k as f64 + 0.37) / steps as f64;
+                    let mut prev_n = {
+                        let mut q = q0;
+                        q[ji] = at(0);
+                        count(&q)
+                    };
+                    for k in 1..steps {
+                        let mut q = q0;
+                        q[ji] = at(k);
+                        let nk = count(&q);
+                        if nk == prev_n {
+                            continue;
+                        }
+                        let (mut lo, mut hi) = (at(k - 1), at(k));
+                        let n_lo = prev_n;
+                        for _ in 0..50 {
+                            let mid = 0.5 * (lo + hi);
+                            let mut qm = q0;
+                            qm[ji] = mid;
+                            if count(&qm) == n_lo {
+                                lo = mid;
+                            } else {
+                                hi = mid;
+                            }
+                        }
+                        prev_n = nk;
+                        jumps += 1;
+                        for d in probes {
+                            for x in [lo - d, hi + d] {
+                                let mut q = q0;
+                                q[ji] = x;
+                                let raw = RawPose::from_iso(&fkref::fk(p, &q));
+                                rep.states += 1;
+                                for (entry, prev, j6) in entry_variants(&q) {
+                                    let c = Case { params: *p, class: PoseClass::Reachable, pose: raw, entry, prev, j6 };
+                                    let (fails, nsol) = eval(&c);
+                                    rep.transitions += 1;
+                                    rep.sig(format!("answer-count-jump:{}:dof{}:{}", entry.name(), p.dof, nsol.min(1)));
+                                    case_no += 1;
+                                    for (key, dd) in fails {
+                                        rep.fail(format!("{key}/answer-count-jump"), case_no, c.json(), dd);
+                                    }
+                                }
+                            }
+                        }
+                    }
+                }
+            }
+        }
+        rep.set("answer_count_jumps_located", json!(jumps));
+    }
     rep.set("threshold_sweeps", json!({"ladder_values": lad.len(), "ladder_min": lad.first(), "ladder_max": lad.last(),
         "j5_ladder_points": sn, "tiny_parameter_robots": trobots.len(),
         "ladder": "13 mantissas per decade 1e-12..1e-2 plus neighbours / squares / roots of every small float literal of src/kinematics_impl.rs"}));
@@ -425,7 +493,7 @@ pub fn run(ctx: &Ctx) -> Report {
     rep.rule = "robots R (geometry x signs x offsets x dof 5/6 + presets) x poses {FK_ref(theta lattice incl. J5 = 0, pi, +-1e-9, +-thr/2, stretched elbow), \
                 scaled-out unreachable, wrist centre on J1 axis, NaN/inf/1e308/denormal in each pose component, un-normalised quaternion} x \
                 entry points x previous classes {solution, +-2pi, zeros, +-7pi, CONSTRAINT_CENTERED}; each answer is pushed through FK_ref; \
-                threshold sweeps: J5 = {0, pi} +- every ladder magnitude on 5 sweep robots x 3 postures, and robots with a1 / a2 / b / c4 = +- ladder magnitude; \
+                discontinuity sweep: jumps of the answer count along 90 joint lines located by bisection, all entry points on both sides at 1e-12..1e-4; threshold sweeps: J5 = {0, pi} +- every ladder magnitude on 5 sweep robots x 3 postures, and robots with a1 / a2 / b / c4 = +- ladder magnitude; \
                 signature = (pose class, entry, dof, number of answers)".into();
     rep.set("axes", json!({"robots": robots.len(), "theta_axis_sizes": sizes_a, "special_per_robot": n_special, "entry_variants": 11}));
     rep.set("tolerances", json!({"pos_m": POS_TOL, "ang_rad": ANG_TOL}));
